@@ -119,6 +119,10 @@ def build(spec):
             nm = "dv0_%d" % k
             v = linear(nm, 5.0)
             offs.append(unit_wrap(nm, v) if not isinstance(v, float) else v)
+        if spec.get("offset_alias") and noff >= 1:
+            # `pars` also carries an entry under the offset's name (a Normal variable with another pymc name): what is checked
+            # must be what is marginalised over, i.e. the variable handed over in v0_offsets
+            pars["dv0_1"] = unit_wrap("dv0_1", pm.Normal("dv0_alias", 0.0, 5.0))
         form = spec.get("pars_form", "dict")
         pp = pars if form == "dict" else [pars[k] for k in pars if hasattr(pars[k], "name")]
         if spec.get("use_default"):
@@ -222,6 +226,9 @@ def run(ctx):
             for k in range(1, noff + 1):
                 attempt(dict(base, nounit={"dv0_%d" % k}), False, "missing-unit", "dv0_%d" % k)
                 attempt(dict(base, badunit={"dv0_%d" % k}), False, "inconvertible-unit", "dv0_%d" % k)
+            if noff >= 1:
+                for kind in ("Uniform", "StudentT"):
+                    attempt(dict(base, lin_kind={"dv0_1": kind}, offset_alias=True), False, "non-Normal-offset-shadowed-in-pars:" + kind, "dv0_1")
             for nm in lin_names:
                 for kind in ["Uniform", "StudentT", "Laplace", "LogNormal", "HalfNormal", "TruncatedNormal", "SkewNormal",
                              "Cauchy", "Deterministic", "Constant", "Float"]:
